@@ -19,6 +19,9 @@ along with the GNU MP Library; see the file COPYING.LIB.  If not, write to
 the Free Software Foundation, Inc., 51 Franklin Street, Fifth Floor, Boston,
 MA 02110-1301, USA. */
 
+#include <stdio.h>
+#include <stdlib.h>
+#include <limits.h>
 #include "mpir.h"
 #include "gmp-impl.h"
 
@@ -37,6 +40,14 @@ mpf_set_prec (mpf_ptr x, mp_bitcnt_t new_prec_in_bits)
   mp_ptr     xp;
 
   new_prec = __GMPF_BITS_TO_PREC (new_prec_in_bits);
+  /* _mp_prec is an int (and prec+1 limbs are allocated): a larger precision
+     cannot be recorded, and storing it would leave a wrong, possibly negative
+     precision behind */
+  if (UNLIKELY (new_prec > INT_MAX - 1))
+    {
+      fprintf (stderr, "gmp: overflow in mpf type\n");
+      abort ();
+    }
   old_prec = PREC(x);
 
   /* do nothing if already the right precision */
